@@ -186,19 +186,16 @@ pub fn ref_lower(t: WTy, v: u64) -> u64 {
 pub enum Lift {
     /// the lift is defined by the property: user-level container expected
     Value(u64),
-    /// input the property does not speak about (bool from an i32 other than 0/1, char from
-    /// a non-scalar-value): observed, never judged
+    /// input the property does not speak about (char from a non-scalar-value): observed,
+    /// never judged
     Unjudged,
 }
 
 /// `lift_flat`: user value the canonical ABI prescribes for core value `c`.
 pub fn ref_lift(t: WTy, c: u64) -> Lift {
     match t {
-        WTy::Bool => match c {
-            0 => Lift::Value(0),
-            1 => Lift::Value(1),
-            _ => Lift::Unjudged,
-        },
+        // convert_int_to_bool(i) = bool(i): lift_flat takes the whole core i32, no masking
+        WTy::Bool => Lift::Value((c != 0) as u64),
         WTy::Char => {
             if is_scalar_value(c) {
                 Lift::Value(c)
